@@ -4,6 +4,8 @@ CONSTANTS
   Widths = {1, 2, 4}
   Elems = {0, 97, 98, 353}
   MaxEls = 2
+  Dev_PoolKeyInElements = FALSE
+  Dev_PoolKeyIgnoresWidth = FALSE
   MaxUses = 2
 INVARIANTS Inv_ShippedServes
 CHECK_DEADLOCK FALSE
